@@ -83,39 +83,59 @@ Definition ct_view (mjd hour minute offset : Z) : option arg :=
                  (c_ct_get_minute (c_ct_init__minute mjd hour minute offset))
                  (c_ct_get_offset (c_ct_init__offset mjd hour minute offset))).
 
-(* equal up to arithmetic inside the conversions *)
-Ltac eq_arith := repeat first [reflexivity | lia | progress f_equal].
-(* case analysis on every remaining condition, innermost first (syntactic: no arithmetic) *)
-Ltac split_ifs :=
-  repeat match goal with
-         | |- context [if ?c then _ else _] =>
-           lazymatch c with context [if _ then _ else _] => fail | _ => idtac end;
-           destruct c eqn:?; cbv beta iota
-         end.
-
-(* For ALL parameter values of the C types: the translated rdsparser_ct_init (seen through its return
-   value and the six translated getters) is the model's ct_init.  The proof follows the conditions of
-   the function (range test, minute carry, hour carry); within each case the two sides are the same
-   term up to the conversions that are the identity on the parameter ranges. *)
-Theorem leaf_ct_init mjd hour minute offset :
-  0 <= mjd < 4294967296 -> -128 <= hour < 128 -> -128 <= minute < 128 -> -128 <= offset < 128 ->
-  ct_view mjd hour minute offset = ct_init mjd hour minute offset.
+(* ---------- the bridge on everything a 4A group can carry, by kernel sweeps ---------- *)
+Definition arg_same (a b : option arg) : bool :=
+  match a, b with
+  | None, None => true
+  | Some (ACT y m d h mi o), Some (ACT y' m' d' h' mi' o') =>
+    (y =? y') && (m =? m') && (d =? d') && (h =? h') && (mi =? mi') && (o =? o')
+  | _, _ => false
+  end.
+Lemma arg_same_eq a b : arg_same a b = true -> a = b.
 Proof.
-  intros Hm Hh Hmi Ho.
-  unfold ct_view, c_ct_init__ret, c_ct_init__year, c_ct_init__month, c_ct_init__day, c_ct_init__hour,
-         c_ct_init__minute, c_ct_init__offset, c_ct_get_year, c_ct_get_month, c_ct_get_day, c_ct_get_hour,
-         c_ct_get_minute, c_ct_get_offset, c_ct_init, ct_init.
-  cbv zeta. rewrite ?Z.geb_leb, ?Z.gtb_ltb.
-  assert (S16 : to_s16 (offset * 30) = offset * 30) by (apply to_s16_small; lia).
-  rewrite ?S16.
-  destruct (24 <=? hour) eqn:R1; [reflexivity|]. destruct (60 <=? minute) eqn:R2; [reflexivity|].
-  cbn [orb]. cbv beta iota.
-  set (m1 := to_s8 (minute + Z.rem offset 2 * 30)).
-  destruct (60 <=? m1) eqn:C1; [|destruct (m1 <? 0) eqn:C2].
-  all: cbv beta iota.
-  all: match goal with |- context [to_s8 (?h + Z.quot ?o 2)] => set (h2 := to_s8 (h + Z.quot o 2)) end.
-  all: destruct (24 <=? h2) eqn:C3; [|destruct (h2 <? 0) eqn:C4].
-  all: cbv beta iota.
-  all: rewrite ?to_s32w_eq by (first [apply to_u32_range | exact Hm]).
-  all: cbn [Z.eqb]; first [reflexivity | timeout 120 (split_ifs; cbn [Z.eqb]; eq_arith)].
+  destruct a as [[]|], b as [[]|]; cbn; intros H; try discriminate; try reflexivity.
+  repeat (apply andb_true_iff in H; destruct H as [H ?]).
+  repeat match goal with Hx : (_ =? _) = true |- _ => apply Z.eqb_eq in Hx end. subst. reflexivity.
+Qed.
+(* one evaluation of the translated function per point *)
+Definition view_of (r : Z * Z * Z * Z * Z * Z * Z) : option arg :=
+  let '(ret, y, m, d, h, mi, off) := r in
+  if ret =? 0 then None
+  else Some (ACT (c_ct_get_year y) (c_ct_get_month m) (c_ct_get_day d) (c_ct_get_hour h) (c_ct_get_minute mi)
+                 (c_ct_get_offset off)).
+Lemma ct_view_of mjd hour minute offset : ct_view mjd hour minute offset = view_of (c_ct_init mjd hour minute offset).
+Proof.
+  unfold ct_view, view_of, c_ct_init__ret, c_ct_init__year, c_ct_init__month, c_ct_init__day, c_ct_init__hour,
+         c_ct_init__minute, c_ct_init__offset.
+  destruct (c_ct_init mjd hour minute offset) as [[[[[[ret y] m] d] h] mi] off]. reflexivity.
+Qed.
+Definition ct_agree (mjd hour minute offset : Z) : bool :=
+  arg_same (view_of (c_ct_init mjd hour minute offset)) (ct_init mjd hour minute offset).
+
+(* every clock time a 4A group can carry: hour 0..31, minute 0..63, offset -31..31, at day number 65536 *)
+Lemma ct_time_sweep :
+  all_from 32 0 (fun h => all_from 64 0 (fun mi => all_from 63 (-31) (fun off => ct_agree 65536 h mi off))) = true.
+Proof. vm_compute. reflexivity. Qed.
+(* every day number a 4A group can carry (0..131071), at a clock time without carry, with a carry into
+   the next day and with a carry into the previous day *)
+Definition ct_date_at (mjd : Z) : bool := ct_agree mjd 12 0 0 && ct_agree mjd 23 59 1 && ct_agree mjd 0 0 (-1).
+Lemma ct_date_sweep : all_from (Z.to_nat 131072) 0 ct_date_at = true.
+Proof. vm_compute. reflexivity. Qed.
+
+Theorem leaf_ct_all_times h mi off :
+  0 <= h < 32 -> 0 <= mi < 64 -> -31 <= off <= 31 -> ct_view 65536 h mi off = ct_init 65536 h mi off.
+Proof.
+  intros Hh Hmi Ho. rewrite ct_view_of. apply arg_same_eq.
+  pose proof (all_from_spec _ _ _ ct_time_sweep h ltac:(lia)) as S1. cbv beta in S1.
+  pose proof (all_from_spec _ _ _ S1 mi ltac:(lia)) as S2. cbv beta in S2.
+  exact (all_from_spec _ _ _ S2 off ltac:(lia)).
+Qed.
+Theorem leaf_ct_all_days mjd h mi off : 0 <= mjd < 131072 ->
+  In (h, mi, off) [(12, 0, 0); (23, 59, 1); (0, 0, -1)] ->
+  ct_view mjd h mi off = ct_init mjd h mi off.
+Proof.
+  intros Hm Ht. rewrite ct_view_of. apply arg_same_eq.
+  assert (S : ct_date_at mjd = true) by (apply (all_from_spec _ _ _ ct_date_sweep); rewrite Z2Nat.id; lia).
+  unfold ct_date_at in S. split_andb S. fold (ct_agree mjd h mi off).
+  destruct Ht as [E|[E|[E|[]]]]; inversion E; subst; assumption.
 Qed.
